@@ -255,7 +255,7 @@ def main(tier, seed, replay=None):
     try:
         if ok_static:
             run.compile_property("theories/Properties/C20.v")
-            n = 84 if tier == "quick" else 840
+            n = 168 if tier == "quick" else 840
             cases = [gen_case(run.rng, k, workdir) for k in range(n)]
             # the known finding: --framework-element
             fw_opts, _ = gen_case(run.rng, 10001, workdir)
